@@ -1038,6 +1038,13 @@ void Backend::releaseRegion(MemRegion *memRegion)
     freeRawMem(memRegion, memRegion->allocSz);
 }
 
+#if ONETBB_VERIF_SIM
+// verification hook (cooperative fault point): an outcome that is legal but rare - "a neighbour / the bin is busy right
+// now, coalescing is delayed" - may be chosen by the simulator, so that the delayed-coalescing queue is exercised
+extern "C" int sim_unusual(const char* site, int per_mille);
+#define __TBB_VERIF_UNUSUAL(site, per_mille) sim_unusual(site, per_mille)
+#endif
+
 // coalesce fBlock with its neighborhood
 FreeBlock *Backend::doCoalesc(FreeBlock *fBlock, MemRegion **mRegion)
 {
@@ -1047,6 +1054,12 @@ FreeBlock *Backend::doCoalesc(FreeBlock *fBlock, MemRegion **mRegion)
 
     fBlock->markCoalescing(resSize);
     resBlock->blockInBin = false;
+#if ONETBB_VERIF_SIM
+    if (__TBB_VERIF_UNUSUAL("coalescing-delayed:neighbour-busy", 30)) { // as if the left neighbour were being coalesced
+        coalescQ.putBlock(fBlock);
+        return nullptr;
+    }
+#endif
 
     // coalescing with left neighbor
     size_t leftSz = fBlock->trySetLeftUsed(GuardedSize::COAL_BLOCK);
@@ -1181,6 +1194,11 @@ bool Backend::coalescAndPutList(FreeBlock *list, bool forceCoalescQDrop, bool re
                 IndexedBins *target = toRet->slabAligned ? &freeSlabAlignedBins : &freeLargeBlockBins;
                 if (forceCoalescQDrop) {
                     target->addBlock(bin, toRet, toRet->sizeTmp, addToTail);
+#if ONETBB_VERIF_SIM
+                } else if (__TBB_VERIF_UNUSUAL("coalescing-delayed:bin-busy", 30)) { // as if the bin were locked
+                    coalescQ.putBlock(toRet);
+                    continue;
+#endif
                 } else if (!target->tryAddBlock(bin, toRet, addToTail)) {
                     coalescQ.putBlock(toRet);
                     continue;
